@@ -41,13 +41,34 @@ def c10_case(draw):
         for n in twin["nodes"]:
             if n.get("sweep"):
                 n["sweep"]["params"] = {k: f"({e}) + 10.0" for k, e in n["sweep"]["params"].items()}
+        # ... and a twin that only SPELLS the expressions differently (operands of + / * exchanged): same meaning and
+        # same semantic id, other text; run after the first twin so that whatever is memoised per node changes hands twice
+        import random as _random
+
+        from ..lib import yamlrw
+
+        spelled = copy.deepcopy(a)
+        changed = False
+        for n in spelled["nodes"]:
+            if n.get("sweep"):
+                for k, e in list(n["sweep"]["params"].items()):
+                    for sd in range(6):
+                        e2 = yamlrw.commute_expr(e, _random.Random(sd))
+                        if e2 != e:
+                            n["sweep"]["params"][k] = e2
+                            changed = True
+                            break
         others_l.insert(0, {"case": twin, "traced": True})
+        if changed:
+            others_l.insert(1, {"case": spelled, "traced": True})
     return {"a": a, "detail": draw(st.sampled_from(["hash", "repr", "context", "all", "hash,repr,context"])),
             "others": others_l, "reuse": draw(st.booleans()), "mode": draw(st.sampled_from(["file", "dir", "file", "dir_dotted"])),
             "shared_orchestrator": draw(st.booleans()), "iterator": draw(st.integers(0, 5)) == 0,
             "nonfinite": draw(st.sampled_from([None] * 7 + ["inf", "nan", "-inf"])),
             "odd": draw(st.sampled_from([None] * 8 + observe.ODD_NAMES)),
-            "raise_kind": draw(st.sampled_from([None] * 9 + sorted(M.EXC_NAMES))), "fresh_process": draw(st.sampled_from([False] * 11 + [True]))}
+            "odd_config": draw(st.sampled_from([None] * 12 + observe.ODD_NAMES)),
+            "raise_kind": draw(st.sampled_from([None] * 9 + sorted(M.EXC_NAMES))),
+            "double_fault": draw(st.sampled_from([False] * 9 + [True])), "fresh_process": draw(st.sampled_from([False] * 11 + [True]))}
 
 
 def _files() -> Dict[str, str]:
@@ -109,6 +130,21 @@ def check_case(case: Dict[str, Any], col: Collector, workroot: str = ".") -> Non
         a = _with_nonfinite(a, case["nonfinite"])
     elif case.get("odd"):
         a = _with_odd(a, case["odd"])
+    elif case.get("odd_config"):
+        # the unusual value sits in the node configuration itself (Python API; YAML could not carry most of them)
+        a = copy.deepcopy(a)
+        for n in a["nodes"]:
+            if n["p"] in ("VEchoProbe", "FloatMultiplyOperation", "FloatAddOperation", "FloatMultiplyOperationWithDefault", "VInPlaceScaleOp") and not n.get("sweep"):
+                n.setdefault("params", {})[M.LIB[n["p"]]["params"][0][0]] = {"$odd": case["odd_config"]}
+                break
+    elif case.get("double_fault"):
+        # two configuration errors: an unknown parameter on the first data node, an unresolvable processor at the end
+        a = copy.deepcopy(a)
+        for n in a["nodes"]:
+            if M.describe(n)["kind"] != "ctx" and not n.get("sweep"):
+                n.setdefault("params", {})["zz"] = 1.0
+                break
+        a["nodes"].append({"p": "NoSuchProcessorXYZ"})
     elif case.get("raise_kind"):
         # a node raises a pre-built exception object (empty args, tuple args, BaseException subclasses ...)
         m0 = M.run(a)
@@ -139,7 +175,7 @@ def check_case(case: Dict[str, Any], col: Collector, workroot: str = ".") -> Non
             from semantiva.pipeline import Pipeline
 
             try:
-                return Pipeline(M.to_config(c), orchestrator=shared)
+                return Pipeline(observe.materialise_odd(M.to_config(c)), orchestrator=shared)
             except Exception:  # noqa: BLE001
                 return None
 
